@@ -162,3 +162,53 @@ props["C07"] = dict(title="No program can make the interpreter terminate abnorma
 
 json.dump(props, open("/verif/harness/jobs.json","w"), indent=1, ensure_ascii=False)
 print("jobs.json written:", {k:(len(v["quick"]),len(v.get("thorough",[]))) for k,v in props.items()})
+
+# ---------------- MANIFEST.json ----------------
+level_text = {
+ "C01": "Bounded symbolic execution of the real Parse() (go/ssa) on token sequences with symbolic token types, compared with a reference parser written from grammer.txt; z3 decides every branch and obligation. A pass means: no token sequence within the stated shapes parses to a tree other than the documented one.",
+ "C02": "Bounded symbolic execution of the real evaluateBinary/evaluateUnary on two symbolic values of every reachable host kind (all 2^64 doubles, all int64) and a symbolic operator type, against the operator specification; FP/BV queries decided by z3 and cvc5 in a race.",
+ "C03": "Bounded symbolic execution of the real Interpret on every program skeleton up to the bound with every name a symbolic code point (the solver decides which names collide), against the scope model.",
+ "C04": "Bounded symbolic execution of the real eval/Function.Call on every function-body shape up to the bound with probe leaves (symbolic outcomes), checked online against reference semantics; closures, recursion and arity through the real pipeline.",
+ "C05": "As C04 for top-level control flow: every statement shape up to the bound, symbolic per-iteration truthiness and failures, compared event by event with the reference semantics.",
+ "C06": "Every statement shape and expression node with a failing probe at every position/invocation: nothing observable after the first diagnostic, right line, termination (loop fuel + native non-terminating replay), exit status through the real main.",
+ "C07": "The union of all panic obligations (index, slice, nil, type assertion, uncomparable ==, negative shift, nil map, division) generated on every path of every other property's harnesses; each is a solver query unless syntactically impossible.",
+ "C08": "Parser: accept <=> reference and first diagnostic at the reference's first non-viable token for every bounded token sequence; lexer: one-step totality for all code points; main: rejected texts are not executed.",
+ "C09": "One-step lemma of the real scanToken over n arbitrary code points from an arbitrary position and line (all 2^32-ish code points per position, exact Unicode tables by refinement) plus whole scans of short texts, against the declarative tokeniser specification.",
+ "C10": "isDigit and transliteration decided for every code point; number branch of the lexer and digit-script swap decided for bounded texts; correct rounding itself is strconv's and is not decided.",
+ "C11": "Histories of array operations through the real eval cases and built-ins with index values of arbitrary kind (all doubles), compared with a pure list model after every step; Go slice aliasing and append growth are modelled exactly.",
+ "C12": "Histories of object operations through the real parser/eval/built-ins under every iteration order of every map range, compared with a pure map model.",
+ "C13": "Every range-over-map site executed under independent symbolic iteration orders; any unmodelled source of nondeterminism makes the run inconclusive rather than pass.",
+ "C14": "Every operand-carrying node with probe operands of every kind: evaluation order and count; logical short circuit; truthiness for every kind and payload.",
+ "C15": "Real PrintStatement on every value kind and nested strings, text compared symbolically (uninterpreted float rendering, structural/solver-decided containment).",
+ "C16": "Relational: each consumer executed on two host representations of the same value; representations are taken from what the current tree can produce.",
+ "C17": "Each math built-in through the real Call case under its documented name with 0-3 arguments of every kind; abs/sqrt/round exact in FP theory; others on uninterpreted stubs.",
+ "C18": "Six metamorphic families as relational symbolic harnesses (layout insertion, digit-script swap, operator spelling, symbolic names, grouping, dead code).",
+ "C19": "Real main/runFile/run under a model of argv, files, exit and stdin chunking; symbolic script names; natively replayed through the built binary.",
+ "C20": "Real runPrompt/run on every session of up to the bound over a pool of lines, relational against fresh single-line sessions.",
+}
+checks = []
+for pid in sorted(props):
+    p = props[pid]
+    checks.append({
+        "property_id": pid,
+        "quick_cmd": "./check %s quick" % pid,
+        "thorough_cmd": "./check %s thorough" % pid,
+        "evidence_file": "/verif/evidence/%s.json" % pid,
+        "replay_cmd_template": "./check --replay {path}",
+        "engine": "bsym",
+        "level_claimed": {"category": "model_checking", "text": level_text[pid] + " Bounded: " + p["bounds"], "design_ref": "DESIGN.md §3 (" + pid + "), §2"},
+        "level_note": "Trusted base: the harness oracles (DESIGN Appendix E), the engine's Go->SMT semantics (validated by concrete differential runs and by replaying every counterexample natively), the solvers, and the stubs: " + "; ".join(p["assumptions"][:4]),
+        "technique": "bounded symbolic execution of the repo's go/ssa (own engine) + SMT (z3/cvc5): unsat = holds within bounds, sat = counterexample replayed natively",
+    })
+manifest = {
+ "version": 1,
+ "setup_cmd": "cd engine && GOFLAGS=-mod=mod GOPROXY=off GOSUMDB=off GOTOOLCHAIN=local go build -o ../bin/bsym .",
+ "hooks": {"guard": "verif", "enable": "none needed: harnesses, probes and replay shims are overlay files (go/packages Overlay for the engine, go test -overlay for native replay); the build tag 'verif' is reserved and unused",
+           "baseline_off_cmd": "cd /repo && GOPROXY=off GOSUMDB=off GOTOOLCHAIN=local go test -json -vet=off -count=1 ./...", "source_commits": [], "add_only": True},
+ "engines": [{"name": "bsym", "path": "/verif/engine", "serves_properties": sorted(props), "kind_free_text": "symbolic executor for go/ssa written for this task: tagged-union interface model, heap with Go aliasing semantics, symbolic map-iteration order, pure-callee summarisation, z3 (incremental for Bool/BV) and z3-vs-cvc5 race for FP, lazy refinement of the Unicode class tables, native replay of every counterexample"}],
+ "checks": checks,
+ "notes": "Every result is 'no counterexample within the stated bounds under the stated stubs'. Clauses not decided by this technique here (recorded under assumptions in each evidence file): correct rounding/overflow of strconv.ParseFloat (C10), shortest round-trip float text and NFC (C15), accuracy of pow/sin/cos/tan (C17), nesting depth 10 000 and fuzzed long texts (C08), real process behaviour beyond the stubs (C13/C19/C20), unbounded recursion (C07). 14 genuine defects were found by these checks, replayed natively, and repaired in /repo by 'fix:' commits (known_findings.json lists them as fixed).",
+ "not_applicable": [],
+}
+json.dump(manifest, open("/verif/MANIFEST.json","w"), indent=1, ensure_ascii=False)
+print("MANIFEST.json written with", len(checks), "checks")
